@@ -1,8 +1,8 @@
 NAME = 'X-sp'
-PROPERTIES = ['C14']
+PROPERTIES = ['C14', 'C13']
 ENGINE = 'verus'
 CLASS = 'U'
-DOC = ('TransactionManager::{record_change, create_savepoint, rollback_to_savepoint, release_savepoint} against the savepoint stack of the '
+DOC = ('TransactionManager::{begin_transaction, commit_transaction, rollback_transaction} (BEGIN snapshots catalog and tables as they are; ROLLBACK puts back exactly that snapshot; COMMIT only ends the transaction) and TransactionManager::{record_change, create_savepoint, rollback_to_savepoint, release_savepoint} against the savepoint stack of the '
        'property: rollback to s returns exactly the changes made after s, truncates the log to s, keeps s alive and destroys later savepoints; '
        's is the MOST RECENT savepoint of that name; RELEASE removes only that savepoint and touches no change; no panic (drain in bounds).')
 
@@ -19,7 +19,9 @@ pub assume_specification<T, A: std::alloc::Allocator> [std::vec::Vec::<T, A>::sh
 #[verifier::external_body] pub struct Name { s: String }            // String savepoint name, with equality
 #[verifier::external_body] pub struct TransactionChange { c: u8 }   // recorded change (Insert/Update/Delete of a Row): opaque here
 #[verifier::external_body] pub struct Catalog { c: u8 }
+impl Catalog { #[verifier::external_body] pub fn clone(&self) -> (r: Catalog) ensures r == *self { unimplemented!() } }
 #[verifier::external_body] pub struct TableMap { m: u8 }            // HashMap<String, Table> snapshot
+impl TableMap { #[verifier::external_body] pub fn clone(&self) -> (r: TableMap) ensures r == *self { unimplemented!() } }
 #[verifier::external_body] pub struct Msg { m: u8 }
 pub enum StorageError { TransactionError(Msg) }
 // R5: error message construction
@@ -92,6 +94,12 @@ impl TransactionManager {
 //@@ rollback_to_savepoint
 
 //@@ release_savepoint
+
+//@@ begin_transaction
+
+//@@ commit_transaction
+
+//@@ rollback_transaction
 }
 
 fn canary_rollback(tm: &mut TransactionManager, name: Name)
@@ -124,11 +132,36 @@ def _pos_stub(m):
 
 _POS = ('refn', r'savepoints\s*\.iter\(\)\s*\.(position|rposition)\(\|sp\| sp\.name == name\)\s*\.ok_or_else\(\|\| \{\s*StorageError::TransactionError\(err_msg\(\)\)\s*\}\)\?', _pos_stub, 1)
 
+_TXRW = [('re', r'vibesql_catalog::Catalog', 'Catalog', None), ('re', r'HashMap<String, Table>', 'TableMap', None), _ERR]
+
 ITEMS = {
     'Savepoint': dict(file=_F, path='struct Savepoint', rewrites=[('re', r'\bString\b', 'Name', 1)]),
     'TransactionState': dict(file=_F, path='enum TransactionState', rewrites=[
         ('lit', 'vibesql_catalog::Catalog', 'Catalog', 1), ('lit', 'HashMap<String, Table>', 'TableMap', 1)]),
     'TransactionManager': dict(file=_F, path='struct TransactionManager'),
+    'begin_transaction': dict(file=_F, path='impl TransactionManager::fn begin_transaction', ret='r', rewrites=_TXRW, contract='''
+    requires old(self).next_transaction_id < u64::MAX,      // machine arithmetic: the id counter is incremented unchecked
+    ensures
+        // BEGIN snapshots the catalog and every table AS THEY ARE, with an empty savepoint stack and an empty change log; a nested BEGIN is refused and changes nothing
+        r is Ok <==> old(self).transaction_state is None,
+        r is Ok ==> (final(self).transaction_state matches TransactionState::Active { original_catalog, original_tables, savepoints, changes, .. }
+                        && original_catalog == *catalog && original_tables == *tables && savepoints@.len() == 0 && changes@.len() == 0),
+        r is Err ==> final(self).transaction_state == old(self).transaction_state,
+'''),
+    'commit_transaction': dict(file=_F, path='impl TransactionManager::fn commit_transaction', ret='r', rewrites=_TXRW, contract='''
+    ensures
+        r is Ok <==> old(self).transaction_state is Active,
+        r is Ok ==> final(self).transaction_state is None,
+        r is Err ==> final(self).transaction_state == old(self).transaction_state,
+'''),
+    'rollback_transaction': dict(file=_F, path='impl TransactionManager::fn rollback_transaction', ret='r', rewrites=_TXRW, contract='''
+    ensures
+        // ROLLBACK puts back EXACTLY the catalog and the tables snapshotted at BEGIN and ends the transaction; without a transaction nothing changes
+        r is Ok <==> old(self).transaction_state is Active,
+        old(self).transaction_state matches TransactionState::Active { original_catalog, original_tables, .. }
+            ==> *final(catalog) == original_catalog && *final(tables) == original_tables && final(self).transaction_state is None,
+        r is Err ==> *final(catalog) == *old(catalog) && *final(tables) == *old(tables) && final(self).transaction_state == old(self).transaction_state,
+'''),
     'record_change': dict(file=_F, path='impl TransactionManager::fn record_change',
                           proofs=[('after:changes.push(change);', 'proof { assert(forall|i: int| 0 <= i < sps(old(self).transaction_state).len() ==> (#[trigger] sps(old(self).transaction_state)[i]).snapshot_index <= changes@.len()); }')],
                           contract='''
@@ -198,10 +231,14 @@ OBLIGATIONS = {
     'create_savepoint': ['post:pushes_savepoint_at_current_log_length', 'safety:no_panic'],
     'rollback_to_savepoint': ['post:undo_suffix_log_truncated_s_stays_alive_later_destroyed_most_recent_name', 'safety:drain_in_bounds_no_overflow'],
     'release_savepoint': ['post:removes_only_that_savepoint_log_untouched', 'safety:no_panic'],
+    'begin_transaction': ['post:snapshot_of_catalog_and_tables_as_they_are__empty_stack_and_log__nested_begin_refused', 'safety:id_counter'],
+    'commit_transaction': ['post:ends_the_transaction__nothing_else'],
+    'rollback_transaction': ['post:catalog_and_tables_are_exactly_the_snapshot_of_begin__transaction_ended'],
 }
 CANARIES = ['canary_rollback', 'canary_create']
 TRUSTED = [
-    'external_body Name / TransactionChange / Catalog / TableMap / Msg: opaque leaf types (String, Row-carrying change, snapshots)',
+    'external_body Name / TransactionChange / Catalog / TableMap / Msg: opaque leaf types (String, Row-carrying change, snapshots); Catalog::clone / TableMap::clone are copies (derive(Clone) of the catalog and of HashMap<String, Table>: ASSUMED to copy everything observable)',
+    'begin_transaction requires next_transaction_id < u64::MAX (machine arithmetic: `+= 1` unchecked)',
     'external_body err_msg: error message text',
     'external_body rposition_name / position_name: Iterator::rposition / position with the closure |sp| sp.name == name (std documented behaviour)',
     'external_body drain_from: Vec::drain(i..).collect() (std documented behaviour; its panic is the precondition i <= len)',
